@@ -57,8 +57,6 @@ def unroll_table_loops(tree: ast.Module) -> int:
                 if _const_table(val):
                     tables[t.id] = val          # type: ignore[assignment]
     tables = {k: v for k, v in tables.items() if counts.get(k) == 1}
-    if not tables:
-        return 0
     done = 0
 
     def own_level(stmts: Sequence[ast.stmt]) -> Iterator[ast.AST]:
@@ -71,10 +69,15 @@ def unroll_table_loops(tree: ast.Module) -> int:
             for h in getattr(st, 'handlers', []):
                 yield from own_level(h.body)
 
-    def expand(loop: ast.For) -> Optional[List[ast.stmt]]:
-        if not (isinstance(loop.iter, ast.Name) and loop.iter.id in tables) or loop.orelse:
+    def expand(loop: ast.For, local_rows: Optional[List[ast.AST]] = None) -> Optional[List[ast.stmt]]:
+        if loop.orelse:
             return None
-        rows = tables[loop.iter.id].elts          # type: ignore[attr-defined]
+        if local_rows is not None:
+            rows = local_rows
+        elif isinstance(loop.iter, ast.Name) and loop.iter.id in tables:
+            rows = tables[loop.iter.id].elts          # type: ignore[attr-defined]
+        else:
+            return None
         if isinstance(loop.target, ast.Name):
             names = [loop.target.id]
             rowvals = [[r] for r in rows]
@@ -101,9 +104,52 @@ def unroll_table_loops(tree: ast.Module) -> int:
                     if n.id in sub and isinstance(n.ctx, ast.Load):
                         return ast.copy_location(copy.deepcopy(sub[n.id]), n)
                     return n
+
+                def visit_JoinedStr(self, n: ast.JoinedStr) -> ast.AST:      # noqa: N802
+                    # f'{indent} {keyword}\n' with keyword := 'cc_x' is the f-string with that text in place
+                    self.generic_visit(n)
+                    vals: List[ast.AST] = []
+                    for v in n.values:
+                        if isinstance(v, ast.FormattedValue) and isinstance(v.value, ast.Constant) and isinstance(v.value.value, str) and v.conversion == -1 and v.format_spec is None:
+                            v = ast.copy_location(ast.Constant(value=v.value.value), v)
+                        if isinstance(v, ast.Constant) and vals and isinstance(vals[-1], ast.Constant) and isinstance(v.value, str) and isinstance(vals[-1].value, str):
+                            vals[-1] = ast.copy_location(ast.Constant(value=vals[-1].value + v.value), vals[-1])
+                        else:
+                            vals.append(v)
+                    n.values = vals          # type: ignore[assignment]
+                    return n
             for b in loop.body:
                 out.append(Sub().visit(copy.deepcopy(b)))
         return out
+
+    def _pure(e: ast.AST) -> bool:
+        return all(isinstance(x, (ast.Name, ast.Attribute, ast.Constant, ast.Compare, ast.BoolOp, ast.UnaryOp, ast.Tuple, ast.Load, ast.And, ast.Or, ast.Not, ast.Is, ast.IsNot, ast.Eq, ast.NotEq,
+                                  ast.In, ast.NotIn, ast.Lt, ast.LtE, ast.Gt, ast.GtE, ast.USub)) for x in ast.walk(e))
+
+    def _local_table(stmts: List[ast.stmt], i: int, loop: ast.For) -> Optional[List[ast.AST]]:
+        """`X = [(<pure>, ...), ...]` directly in front of `for ... in X:` whose body only tests and calls `<name>.write(...)`: the rows
+        (attribute reads and comparisons, evaluated when the list is built) cannot be changed by such a body, so the loop is its unrolling"""
+        prev = stmts[i - 1]
+        val = prev.value if isinstance(prev, (ast.Assign, ast.AnnAssign)) else None
+        tgt = (prev.targets[0] if isinstance(prev, ast.Assign) and len(prev.targets) == 1 else getattr(prev, 'target', None))
+        if not (isinstance(tgt, ast.Name) and isinstance(loop.iter, ast.Name) and tgt.id == loop.iter.id and isinstance(val, (ast.List, ast.Tuple)) and val.elts and len(val.elts) <= 16):
+            return None
+        if not all(_pure(r) for r in val.elts):
+            return None
+        if any(isinstance(x, ast.Name) and x.id == tgt.id for s_ in stmts[i + 1:] for x in ast.walk(s_)):
+            return None
+
+        def ok_body(body: List[ast.stmt]) -> bool:
+            for b in body:
+                if isinstance(b, ast.If):
+                    if not (_pure(b.test) and ok_body(b.body) and ok_body(b.orelse)):
+                        return False
+                elif isinstance(b, ast.Expr) and isinstance(b.value, ast.Call) and isinstance(b.value.func, ast.Attribute) and isinstance(b.value.func.value, ast.Name) and b.value.func.attr in ('write', 'append'):
+                    continue
+                else:
+                    return False
+            return True
+        return list(val.elts) if ok_body(loop.body) else None
 
     def rewrite(stmts: List[ast.stmt]) -> None:
         nonlocal done
@@ -118,6 +164,8 @@ def unroll_table_loops(tree: ast.Module) -> int:
                 rewrite(h.body)
             if isinstance(st, ast.For):
                 ex = expand(st)
+                if ex is None and i > 0 and isinstance(st.iter, ast.Name):
+                    ex = expand(st, local_rows=_local_table(stmts, i, st))
                 if ex is not None:
                     stmts[i:i + 1] = ex
                     done += 1
